@@ -93,7 +93,8 @@ CLAIMED = {
     "C05": dict(
         text="Theorems C05_v1/C05_v2/C05_v2_auto/C05_flags (Props/C05.v): every proper prefix of every accepted US-ASCII v1 "
              "line is incomplete through the byte, &str and auto entry points; every proper prefix of every accepted v2 header "
-             "yields exactly Incomplete(k) / Partial(k-16, length); is_complete = !is_incomplete; Ok is never incomplete. "
+             "yields exactly Incomplete(k) / Partial(k-16, length); is_complete = !is_incomplete; Ok is never incomplete; the "
+             "re-parse-after-every-read loop returns the one-shot header for every split into reads (C05_stream_v1/v2). "
              "Case analysis over every cut position of every line shape, no bound. Tie: 8M prefix cases per quick run.",
         ref="7-C05", technique="Coq proof (every cut point of every accepted shape) + exhaustive-prefix differential check"),
     "C06": dict(
